@@ -266,6 +266,57 @@ def over_limit(twin: bool = False, real: bool = False):
     return check_over_limit, {"n": 500}
 
 
+def step_polls(twin: bool = False, real: bool = False):
+    """When to fetch actively: ChainManager.step(t) sends a block locator to an active peer whenever the node should fetch
+    (stale head / just started / minute tick), some active peer is past its empty-inventory back-off, and no unexpired
+    fetch is in progress - in particular also to a peer whose earlier inventory still lists ids the node already had."""
+    env, ns, rpm, ms, mgr = _shell(real)
+
+    def check_step_polls(t: int, head_ts: int, started: int, last_empty: int, fetch_until: int, leftover: bool, waiting: bool) -> bool:
+        """
+        post: _
+        """
+        if not (0 <= t < 2 ** 31 and 0 <= head_ts < 2 ** 31 and 0 <= started <= t and 0 <= last_empty <= t and 0 <= fetch_until < 2 ** 31):
+            return True
+        X = _chain(env, 1, 1, 1)
+        X[1].header.summary.timestamp = head_ts
+        lp = ns.make_node()
+        cm = lp.chain_manager
+        cm.coinstate = _state(env, X, [])
+        cm.started_at = started
+        peer = ns.connect_peer(lp, "10.0.0.1", 1000, "OUTGOING")
+        peer.last_empty_inventory_response_at = last_empty
+        peer.waiting_for_inventory = waiting
+        if leftover:
+            # an earlier inventory from this peer listed an id the node already had: it never arrives as data
+            st = rpm.InventoryMessageState(ms.MessageHeader(1, 3, 2, 7), ms.InventoryMessage([ms.InventoryItem(ms.DATA_BLOCK, X[1].hash())]))
+            st.actually_used = True
+            peer.inventory_messages.append(st)
+            cm.actively_fetching_blocks_from_peers = [(fetch_until, peer)]
+        sent: List[Any] = []
+        peer.send_message = lambda m, prev_header=None: sent.append(m)
+        try:
+            cm.step(t)
+        except Exception:
+            return False
+        if twin:
+            return len(sent) == 0
+        should = (t > head_ts + 300) or (t <= started + 60) or (t % 60 == 0)
+        candidate = t > last_empty + 60
+        # a fetch in progress blocks a new one only until its deadline (and only while its batch is unfinished)
+        in_progress = leftover and (t < fetch_until)
+        got = len([m for m in sent if isinstance(m, ms.GetBlocksMessage)])
+        if len(sent) != got or got > 1:
+            return False
+        if not (should and candidate):
+            return got == 0                 # never polls without a reason or inside a peer's back-off
+        if not in_progress:
+            return got == 1                 # liveness: nothing in progress any more => the peer is asked (again)
+        return True                         # while a fetch is in progress the code may or may not start another one
+
+    return check_step_polls, {"t": 10000, "head_ts": 100, "started": 0, "last_empty": 0, "fetch_until": 50, "leftover": True, "waiting": False}
+
+
 # -- e: two nodes, FIFO ---------------------------------------------------------------------------------
 
 
@@ -357,6 +408,7 @@ def obligations(tier: str, known: List[str]) -> List[Ob]:
     obs.append(Ob("c.inventory-consumption", C_INV, "consumption", {}, timeout=T))
     obs.append(twin_of(obs[-1], timeout=300))
     obs.append(Ob("c.over-limit-inventory", C_INV, "over_limit", {}, timeout=T))
+    obs.append(Ob("d.when-to-fetch[ChainManager.step]", C_CONV, "step_polls", {}, timeout=T))
     obs.append(Ob("e.two-nodes-fifo", C_CONV + "; " + C_RLY, "fifo_sync", {}, timeout=T))
     obs.append(twin_of(obs[-1], timeout=300))
     return obs
